@@ -6,9 +6,125 @@ package kfmt
 
 //@ mode bv
 
-// As seen by callers in other packages: formatted logging touches nothing
-// they talk about (its own behaviour is the subject of C15).
-//@ func Fprintf(w io.Writer, format string, args ...interface{})
+// ---- the output stream, as a ghost log ---------------------------------------------------
+// every byte reaches the writer (or the early ring buffer) through doWrite, in program order.
+// Log positions are compared modulo 2^64 (position j lies in the n bytes starting at s iff
+// j-s < n unsigned), so no bound on the amount of output is needed.
+//@ ghost outLen int
+//@ ghost out map[int]uint8
+//@ pred inLog(j int, s int, n int) = uint64(j - s) < uint64(n)
+//@ pred appended(p []byte) = outLen == old(outLen) + len(p) && forall(j, int, out[j] == ite(inLog(j, old(outLen), len(p)), old(p[j - old(outLen)]), old(out)[j]))
+// the package's scratch and message buffers as package initialisation leaves them: right
+// lengths, pairwise distinct objects; the message texts are never written
+//@ pred msgIs4(b []byte, c0 uint8, c1 uint8, c2 uint8, c3 uint8) = len(b) >= 4 && b[0] == c0 && b[1] == c1 && b[2] == c2 && b[3] == c3
+//@ pred bufsOK() = !isnil(numFmtBuf) && len(numFmtBuf) == 33 && !isnil(singleByte) && len(singleByte) == 1 && !sameobj(numFmtBuf, singleByte) && !isnil(trueValue) && len(trueValue) == 4 && msgIs4(trueValue, 't', 'r', 'u', 'e') && !isnil(falseValue) && len(falseValue) == 5 && msgIs4(falseValue, 'f', 'a', 'l', 's') && falseValue[4] == 'e' && !isnil(errWrongArgType) && len(errWrongArgType) == 13 && !isnil(errMissingArg) && len(errMissingArg) == 9 && !isnil(errNoVerb) && len(errNoVerb) == 10 && !isnil(errExtraArg) && len(errExtraArg) == 9 && !sameobj(trueValue, singleByte) && !sameobj(falseValue, singleByte) && !sameobj(trueValue, numFmtBuf) && !sameobj(falseValue, numFmtBuf) && !sameobj(errWrongArgType, numFmtBuf) && !sameobj(errWrongArgType, singleByte)
+// the messages keep their text (only numFmtBuf and singleByte are scratch space)
+//@ pred msgsSame() = forall(i, int, 0 <= i && i < 13 ==> errWrongArgType[i] == old(errWrongArgType[i])) && forall(i, int, 0 <= i && i < 5 ==> (i < 4 ==> trueValue[i] == old(trueValue[i])) && falseValue[i] == old(falseValue[i]))
+
+// doWrite hands exactly the slice p to the writer: noEscape is the identity (x ^ 0) on the
+// address of p; the pointer round-trip through uintptr is outside the engine's pointer model,
+// so this contract is assumed
+//@ func doWrite(w io.Writer, p []byte)
 //@   trusted
+//@   modifies outLen, out
+//@   ensures appended(p)
+
+// As seen by callers in other packages: formatted logging touches only kfmt's own state
 //@ func Printf(format string, args ...interface{})
 //@   trusted
+//@   modifies outLen, out, elems(uint8)
+
+//@ func fmtRepeat(w io.Writer, ch byte, count int)
+//@   property C15
+//@   requires bufsOK()
+//@   modifies outLen, out, singleByte[0]
+//@   ensures n: outLen == old(outLen) + ite(count > 0, count, 0)
+//@   ensures bytes: forall(j, int, out[j] == ite(count > 0 && inLog(j, old(outLen), count), ch, old(out)[j]))
+//@   ensures bufs: bufsOK() && msgsSame() && forall(i, int, 0 <= i && i < 33 ==> numFmtBuf[i] == old(numFmtBuf[i]))
+//@   loop 1 (i < count) invariant 0 <= i && (i <= count || count < 0) && (count <= 0 ==> i == 0) && outLen == old(outLen) + i && singleByte[0] == ch && bufsOK() && msgsSame() && forall(j, int, out[j] == ite(inLog(j, old(outLen), i), ch, old(out)[j])) && forall(j, int, 0 <= j && j < 33 ==> numFmtBuf[j] == old(numFmtBuf[j]))
+
+// booleans print as true / false, anything else as the wrong-type marker
+//@ func fmtBool(w io.Writer, v interface{})
+//@   property C15
+//@   requires bufsOK()
+//@   modifies outLen, out
+//@   ensures t: typeis(v, bool) && unbox(v, bool) ==> outLen == old(outLen) + 4 && out[old(outLen)] == 't' && out[old(outLen)+1] == 'r' && out[old(outLen)+2] == 'u' && out[old(outLen)+3] == 'e'
+//@   ensures f: typeis(v, bool) && !unbox(v, bool) ==> outLen == old(outLen) + 5 && out[old(outLen)] == 'f' && out[old(outLen)+1] == 'a' && out[old(outLen)+2] == 'l' && out[old(outLen)+3] == 's' && out[old(outLen)+4] == 'e'
+//@   ensures wrong: !typeis(v, bool) ==> outLen == old(outLen) + 13 && forall(i, int, 0 <= i && i < 13 ==> out[old(outLen)+i] == errWrongArgType[i])
+//@   ensures older: forall(j, int, !inLog(j, old(outLen), outLen - old(outLen)) ==> out[j] == old(out)[j])
+//@   ensures bufs: bufsOK()
+
+// strings and byte slices: left-padded with spaces to the width, bytes unchanged
+//@ spec padOf(padLen int, n int) int = ite(padLen - n > 0, padLen - n, 0)
+//@ func fmtString(w io.Writer, v interface{}, padLen int)
+//@   property C15
+//@   requires bufsOK()
+//@   requires typeis(v, string) ==> !sameobj(unbox(v, string), singleByte)
+//@   requires typeis(v, []byte) ==> !sameobj(unbox(v, []byte), singleByte)
+//@   modifies outLen, out, elems(uint8)
+//@   ensures str: typeis(v, string) ==> outLen == old(outLen) + padOf(padLen, len(unbox(v, string))) + len(unbox(v, string)) && forall(j, int, out[j] == ite(inLog(j, old(outLen), padOf(padLen, len(unbox(v, string)))), ' ', ite(inLog(j, old(outLen) + padOf(padLen, len(unbox(v, string))), len(unbox(v, string))), unbox(v, string)[j - (old(outLen) + padOf(padLen, len(unbox(v, string))))], old(out)[j])))
+//@   ensures bytes: typeis(v, []byte) ==> outLen == old(outLen) + padOf(padLen, len(unbox(v, []byte))) + len(unbox(v, []byte)) && forall(j, int, out[j] == ite(inLog(j, old(outLen), padOf(padLen, len(unbox(v, []byte)))), ' ', ite(inLog(j, old(outLen) + padOf(padLen, len(unbox(v, []byte))), len(unbox(v, []byte))), old(unbox(v, []byte)[j - (old(outLen) + padOf(padLen, len(unbox(v, []byte))))]), old(out)[j])))
+//@   ensures wrong: !typeis(v, string) && !typeis(v, []byte) ==> outLen == old(outLen) + 13 && forall(i, int, 0 <= i && i < 13 ==> out[old(outLen)+i] == errWrongArgType[i]) && forall(j, int, !inLog(j, old(outLen), 13) ==> out[j] == old(out)[j])
+//@   ensures bufs: bufsOK()
+//@   loop 1 (i < len(castedVal)) invariant 0 <= i && i <= len(castedVal) && bufsOK() && outLen == old(outLen) + padOf(padLen, len(castedVal)) + i && forall(j, int, out[j] == ite(inLog(j, old(outLen), padOf(padLen, len(castedVal))), ' ', ite(inLog(j, old(outLen) + padOf(padLen, len(castedVal)), i), castedVal[j - (old(outLen) + padOf(padLen, len(castedVal)))], old(out)[j])))
+
+// ---- integers: positional notation defined with the machine division the code uses -----------
+// q(m,b,k) = m divided by b k times; digit k (from the right) of m in base b is chr(q(m,b,k) % b)
+//@ ufun q(m uint64, b uint64, k int) uint64
+//@ axiom q0(m uint64, b uint64): q(m, b, 0) == m
+//@ axiom qS(m uint64, b uint64, k int): q(m, b, k+1) == q(m, b, k) / b
+//@ spec chr(d uint64) uint8 = ite(d < 10, uint8(d) + '0', uint8(d - 10) + 'a')
+//@ spec dig(m uint64, b uint64, k int) uint8 = chr(q(m, b, k) % b)
+// every 64-bit number has at most 22 digits in a base >= 8
+//@ lemma qBound(m uint64, b uint64, k int): b >= 8 && k >= 0 && k <= 22 ==> q(m, b, k) <= m >> uint64(3*k)
+//@   by induction k
+//@   using q0(m, b); qS(m, b, k)
+//@   property C15
+// magnitude and sign of an integer argument of any built-in integer type
+//@ pred isUns(v interface{}) = typeis(v, uint8) || typeis(v, uint16) || typeis(v, uint32) || typeis(v, uint64) || typeis(v, uintptr)
+//@ pred isSig(v interface{}) = typeis(v, int8) || typeis(v, int16) || typeis(v, int32) || typeis(v, int64) || typeis(v, int)
+//@ spec sval64(v interface{}) int64 = ite(typeis(v, int8), int64(unbox(v, int8)), ite(typeis(v, int16), int64(unbox(v, int16)), ite(typeis(v, int32), int64(unbox(v, int32)), ite(typeis(v, int64), unbox(v, int64), int64(unbox(v, int))))))
+//@ spec uval64(v interface{}) uint64 = ite(typeis(v, uint8), uint64(unbox(v, uint8)), ite(typeis(v, uint16), uint64(unbox(v, uint16)), ite(typeis(v, uint32), uint64(unbox(v, uint32)), ite(typeis(v, uint64), unbox(v, uint64), uint64(unbox(v, uintptr))))))
+//@ spec magOf(v interface{}) uint64 = ite(isUns(v), uval64(v), ite(sval64(v) < 0, uint64(-sval64(v)), uint64(sval64(v))))
+//@ pred negOf(v interface{}) = isSig(v) && sval64(v) < 0
+// effective width: widths above 31 count as 31
+//@ spec widthOf(padLen int) int = ite(padLen >= 32, 31, ite(padLen < 0, 0, padLen))
+
+// fmtInt: never panics; a value that is not of a built-in integer type prints exactly the wrong-type
+// marker; the number occupies at least the (clamped) width and at most 22 digits, so with a width
+// above 31 the output is exactly 31 bytes (32 with the sign of a negative octal/hex number); earlier
+// output is untouched. (The digit-by-digit value of the output is not part of this contract.)
+//@ func fmtInt(w io.Writer, v interface{}, base int, padLen int)
+//@   property C15
+//@   requires bufsOK() && (base == 8 || base == 10 || base == 16)
+//@   modifies outLen, out, elems(uint8)
+//@   ensures wrong: !isUns(v) && !isSig(v) ==> outLen == old(outLen) + 13 && forall(i, int, 0 <= i && i < 13 ==> out[old(outLen)+i] == errWrongArgType[i]) && forall(j, int, !inLog(j, old(outLen), 13) ==> out[j] == old(out)[j])
+//@   ensures bounded: outLen - old(outLen) >= 1 && outLen - old(outLen) <= 33
+//@   ensures width: (isUns(v) || isSig(v)) ==> outLen - old(outLen) >= widthOf(padLen)
+//@   ensures clamp: (isUns(v) || isSig(v)) && padLen >= 23 ==> outLen - old(outLen) == widthOf(padLen) + ite(negOf(v) && base != 10, 1, 0)
+//@   ensures older: forall(j, int, !inLog(j, old(outLen), outLen - old(outLen)) ==> out[j] == old(out)[j])
+//@   ensures bufs: bufsOK() && msgsSame()
+//@   at entry: use q0(magOf(v), uint64(base)); qBound(magOf(v), uint64(base), 22)
+//@   loop 1 cutpoint
+//@   loop 2 cutpoint
+//@   loop 1 (right < maxBufSize) invariant digits: right >= 0 && right <= 21 && left == 0 && bufsOK() && divider == uint64(base) && padCh == ite(base == 10, ' ', '0') && uval == q(magOf(v), uint64(base), right) && forall(k, int, 1 <= k && k <= right ==> q(magOf(v), uint64(base), k) != 0) && forall(k, int, 0 <= k && k < right ==> numFmtBuf[k] != ' ')
+//@   loop 1 invariant meta: (isUns(v) || isSig(v)) && (sval < 0 <==> negOf(v)) && padLen == ite(old(padLen) >= 32, 31, old(padLen)) && outLen == old(outLen) && out == old(out) && msgsSame()
+//@   loop 1 use qS(magOf(v), uint64(base), right)
+//@   loop 2 (right-left < padLen) invariant pads: right >= 1 && right <= 31 && left == 0 && bufsOK() && padCh == ite(base == 10, ' ', '0') && numFmtBuf[0] != ' ' && (right <= 22 || right <= padLen) && forall(k, int, 0 <= k && k < right ==> numFmtBuf[k] != ' ' || (base == 10 && k >= 1)) && forall(k, int, 22 <= k && k < right ==> numFmtBuf[k] == padCh)
+//@   loop 2 invariant meta: (isUns(v) || isSig(v)) && (sval < 0 <==> negOf(v)) && padLen == ite(old(padLen) >= 32, 31, old(padLen)) && outLen == old(outLen) && out == old(out) && msgsSame()
+//@   loop 3 (numFmtBuf[end] == ' ') invariant scan: end >= 0 && end <= right - 1 && (base != 10 ==> end == right - 1) && (base == 10 && right > 22 ==> end < right - 1 || numFmtBuf[end] == ' ')
+//@   loop 4 (left < right) invariant rev: left >= 0 && right <= 32 && left + right == end - 1 && left <= right + 1 && end >= 1 && end <= 33 && bufsOK() && msgsSame() && outLen == old(outLen) && out == old(out)
+
+// Fprintf: for ANY format string and arguments no index, slice or type-assertion panic; the
+// scratch buffers keep their shape. (The directive-level output clause is not part of this contract.)
+//@ func Fprintf(w io.Writer, format string, args ...interface{})
+//@   property C15
+//@   requires [C15] bufsOK() && !sameobj(format, singleByte) && !sameobj(format, numFmtBuf) && len(format) < 0x4000000000000000
+//@   requires [C15] forall(k, int, 0 <= k && k < len(args) ==> (typeis(args[k], string) ==> !sameobj(unbox(args[k], string), singleByte)) && (typeis(args[k], []byte) ==> !sameobj(unbox(args[k], []byte), singleByte)))
+//@   modifies outLen, out, elems(uint8)
+//@   ensures [C15] bufsOK()
+//@   loop 1 (blockEnd < fmtLen) invariant scan: 0 <= blockStart && blockStart <= blockEnd && blockEnd <= fmtLen + 1 && (blockEnd > fmtLen ==> blockStart == blockEnd) && 0 <= nextArgIndex && nextArgIndex <= len(args) && bufsOK() && fmtLen == len(format)
+//@   loop 2 (i < blockEnd) invariant lit: blockStart <= i && i <= blockEnd && blockEnd < fmtLen && bufsOK() && 0 <= nextArgIndex && nextArgIndex <= len(args) && 0 <= blockStart
+//@   loop 3 (blockEnd < fmtLen) invariant dir: 0 <= blockEnd && blockEnd <= fmtLen && 0 <= nextArgIndex && nextArgIndex <= len(args) && bufsOK() && fmtLen == len(format)
+//@   loop 4 (i < blockEnd) invariant tail: blockStart <= i && 0 <= blockStart && blockEnd <= fmtLen && bufsOK()
+//@   loop 5 (nextArgIndex < len(args)) invariant extra: bufsOK()
